@@ -25,6 +25,18 @@ CHECKS = {
    technique="deterministic simulation of the ambient nondeterminism: child interpreters with seed-derived PYTHONHASHSEED, seeded identity hash (__hash__ seam) on every androguard object, and seeded decompilation histories; all simulated processes must emit identical text per target",
    text="Seeded search over (hash seed, identity-hash layout, decompilation history) for corpus and generated DEX files with loops, switches, short-circuit conditions and try/catch. Sampling, not proof.",
    note="Trusted: CPython orders identity-hashed set/dict members only through __hash__; gen/dexasm.py. Real addresses are never used as a deciding seam (not reproducible here)."),
+ "C35": dict(engine="iosim", category="exploration", ref="4.5",
+   technique="deterministic simulation with storage-fault injection: seeded EOF / altered-byte / oversized-count / removed-terminator / offset-into-junk faults on the parsers' byte store, liveness judged on a virtual step clock (sys.monitoring) with an extension window that watches stream progress",
+   text="Seeded search over 1-3 storage faults placed with the recorded read map of the pristine parse, for DEX, AXML, ARSC and APK entry points; non-termination is a deterministic, replayable verdict. Sampling, not proof.",
+   note="Trusted: step clock counts Python lines in androguard/apkInspector only (C code is not counted); budget B(n)=min(500n+2e6,4e7) only flags, the verdict needs no stream progress and a frame that never returned."),
+ "C09": dict(engine="iosim", category="fault_enumeration", ref="4.6",
+   technique="fault enumeration at the storage seam: every single stored-byte fault at every offset >= 12 (stale checksum) plus header-field faults with recomputed checksum; the recorded read history and a wrapped ClassManager.add_type_item decide 'before any structure is parsed'",
+   text="Enumerates offset x value for small corpus and generated DEX files (quick: 4 values per offset, all 255 for files <= 700 B; thorough: all 255). Exhaustive only for the files and values of the run.",
+   note="Trusted: the recording io shim; 'wrong' header values are exactly those the statement names."),
+ "C32": dict(engine="iosim-archive", category="fault_enumeration", ref="4.7",
+   technique="fault enumeration on archive entries as storage: every single-byte fault in .SF, signature value, signed attributes and signer id of v1-signed APKs, archive rewritten, real APK code asked for the certificate; pre-condition re-checked by an independent verifier",
+   text="Tamper half of the property. Enumerates offset x value per region (quick: 2 values, thorough: all 255, capped per worker). The positive half is only a pre-condition (independent cryptography check on each pristine block).",
+   note="Trusted: asn1crypto for locating regions, cryptography for the independent pre-condition, own X500 canonical-name comparison for the 'same certificate reference' guard."),
 }
 
 def build():
@@ -61,6 +73,8 @@ def build():
              "kind_free_text": "deterministic simulation of real OS processes over one SQLite file, seeded scheduler + fault injection"},
             {"name": "ndsim", "path": "checks/c22.py", "serves_properties": ["C22"],
              "kind_free_text": "child interpreters whose hash seed, identity-hash layout and decompilation history are seeded simulated variables"},
+            {"name": "iosim", "path": "simkit/iosim.py", "serves_properties": ["C35", "C09", "C32"],
+             "kind_free_text": "recording byte-store seam (io shim / archive entries) with storage-fault injection and a virtual step clock"},
             {"name": "histsim", "path": "simkit/driver.py", "serves_properties": ["C16", "C17"],
              "kind_free_text": "seeded API-call history search against a reference model, ddmin minimisation, exact replay"},
         ],
